@@ -257,10 +257,43 @@ def _str_encode(interp, s, *a, **k):
     raise Unsupported("encode of symbolic text")
 
 
+def _str_fresh(kind):
+    def f(interp, s, *a, **k):
+        """lower()/upper()/strip(): some string of the same kind (over-approximation, noted)."""
+        interp.ctx.note_overapprox("str.%s result unconstrained" % kind)
+        return (interp.ctx.bytes if isinstance(s, SBytes) else interp.ctx.str)('%s_of_text' % kind, declare=False)
+    return f
+
+
+def _str_decode(interp, s, *a, **k):
+    if not isinstance(s, SBytes):
+        raise AttributeError("'str' object has no attribute 'decode'")
+    if interp.ctx.choose(2, 'decode_succeeds'):
+        return interp.ctx.str('decoded_text', declare=False)
+    raise UnicodeDecodeError('utf-8', b'\xff', 0, 1, 'invalid start byte')
+
+
+def _str_encode2(interp, s, *a, **k):
+    if isinstance(s, SBytes):
+        raise AttributeError("'bytes' object has no attribute 'encode'")
+    enc = (a[0] if a else k.get('encoding', 'utf-8'))
+    if str(enc).lower().replace('-', '') in ('utf8', 'utf16', 'utf32'):
+        # utf-8 encodes every str except lone surrogates; treated as total (noted)
+        interp.ctx.note_overapprox("str.encode('utf8') treated as total (lone surrogates ignored)")
+        return interp.ctx.bytes('encoded_text', declare=False)
+    if interp.ctx.choose(2, 'encode_succeeds'):
+        return interp.ctx.bytes('encoded_text', declare=False)
+    raise UnicodeEncodeError(str(enc), u'\xff', 0, 1, 'ordinal not in range')
+
+
 _STR_METHODS = {
     'startswith': _str_startswith,
     'endswith': _str_endswith,
-    'encode': _str_encode,
+    'encode': _str_encode2,
+    'decode': _str_decode,
+    'lower': _str_fresh('lower'),
+    'upper': _str_fresh('upper'),
+    'strip': _str_fresh('strip'),
 }
 
 
@@ -332,6 +365,12 @@ def sym_getattr(interp, obj, name):
 
 
 def sym_getitem(interp, obj, idx):
+    if isinstance(obj, SStr) and isinstance(idx, slice) and idx.step in (None, 1) and \
+            all(v is None or (isinstance(v, int) and v >= 0) for v in (idx.start, idx.stop)):
+        a = idx.start or 0
+        if idx.stop is None:
+            return type(obj)(z3.SubString(obj.t, a, z3.Length(obj.t)))
+        return type(obj)(z3.SubString(obj.t, a, max(0, idx.stop - a)))
     if isinstance(obj, SymSeq):
         if isinstance(idx, (int, SInt)):
             i = idx if isinstance(idx, SInt) else SInt(z3.IntVal(idx))
